@@ -194,6 +194,13 @@ EXT_ENUMS = {
     'syn::GenericArgument': ['Lifetime', 'Type', 'Const', 'Binding', 'Constraint'],
     'syn::PathArguments': ['None', 'AngleBracketed', 'Parenthesized'],
 }
+# syn 2.x declaration orders (MIR built with the `syn2` feature)
+EXT_ENUMS_SYN2 = {
+    'syn::GenericParam': ['Lifetime', 'Type', 'Const'],
+    'syn::GenericArgument': ['Lifetime', 'Type', 'Const', 'AssocType', 'AssocConst', 'Constraint'],
+    'syn::Meta': ['Path', 'List', 'NameValue'],
+    'syn::MacroDelimiter': ['Paren', 'Brace', 'Bracket'],
+}
 EXT_TUPLE_VARIANTS = {'syn::Member::Named', 'syn::Member::Unnamed', 'std::option::Option::Some', 'std::result::Result::Ok', 'std::result::Result::Err'}
 EXT_ENUM_DISCR = {'std::cmp::Ordering': {'Less': -1, 'Equal': 0, 'Greater': 1}}
 EXT_STRUCTS = {
@@ -245,11 +252,14 @@ class PathResult:
 
 
 class Engine:
-    def __init__(self, mir_path, src_paths):
+    def __init__(self, mir_path, src_paths, syn=1):
         self.fns, self.consts = parse_mir(open(mir_path).read())
         self.src_paths = src_paths
+        self.syn = syn               # which parser back-end the MIR was built with (cargo feature `syn` = 1, `syn2` = 2)
         self.structs, self.enums, self.variant_fields = load_src_types(src_paths)
         self.enums.update(EXT_ENUMS)
+        if syn == 2:
+            self.enums.update(EXT_ENUMS_SYN2)
         self.structs.update(EXT_STRUCTS)
         self.aliases = {}
         for sp in src_paths.values():
